@@ -14,6 +14,12 @@ repo,h=sys.argv[1],sys.argv[2]
 rep={}
 for f in glob.glob(h+'/*.go'):
     rep[repo+'/go/signedexchange/internal/verifharness/'+os.path.basename(f)]=f
+# overlay-only export files: harness/overlay/<path relative to the repository root>
+for dp,dn,fn in os.walk(h+'/overlay'):
+    for f in fn:
+        full=os.path.join(dp,f)
+        rel=os.path.relpath(full,h+'/overlay')
+        rep[os.path.join(repo,rel)]=full
 print(json.dumps({"Replace":rep}))
 PY
 cd $REPO
